@@ -72,13 +72,14 @@ static long decode_all (const unsigned char *bytes, sf_count_t len, const Fmt *f
 	return F ;
 }
 
-static void c11_case (const Fmt *f, int ch, int mode, int meta)
+static void c11_case (const Fmt *f, int ch, int mode, int meta, int seq)
 {	int rate = fmt_default_rate (f), B = fmt_block (f, ch, rate), rc ; long parts [4], total = 0 ; short *data, *fin = NULL, *plain = NULL ; Image images [4] ;
 	char rs [96] ; SF_INFO fi, pi ; const char *err = "" ; long Ffin, Fplain ; uint64_t oh = VL_H0 ;
 	int with_mid = vl_opts.thorough ;
 
 	snprintf (rs, sizeof (rs), "%s|%s|%s", rt_fam (f), rt_chclass (ch), mode == 1 ? "update-now" : mode == 2 ? "auto" : "update-now-after-seek") ;
-	if (B > 1) { parts [0] = B + 3 ; parts [1] = 1 ; parts [2] = 2 * B - 1 ; parts [3] = 3 ; }
+	if (B > 1 && seq == 1) { parts [0] = B ; parts [1] = B ; parts [2] = 1 ; parts [3] = B - 1 ; }	/* calls that end exactly on a block boundary: B, 2B, 2B+1, 3B */
+	else if (B > 1) { parts [0] = B + 3 ; parts [1] = 1 ; parts [2] = 2 * B - 1 ; parts [3] = 3 ; }
 	else { parts [0] = 5 ; parts [1] = 1 ; parts [2] = 4 ; parts [3] = 3 ; }
 	for (int p = 0 ; p < 4 ; p++) total += parts [p] ;
 	data = malloc (total * ch * 2) ;
@@ -163,7 +164,9 @@ void harness_run (void)
 				{	/* parking the write pointer elsewhere during the update is explored where write-mode seeks are defined: sample-granular encodings */
 					if (mode >= 3 && (! f->gran || sub == SF_FORMAT_DPCM_8 || sub == SF_FORMAT_DPCM_16)) continue ;
 					if (vl_case ("C11 fmt=%s ch=%d mode=%s meta=%d", f->name, ch, mode == 1 ? "update-now" : mode == 2 ? "auto" : mode == 3 ? "update-now-at-frame0" : "update-now-at-middle", meta))
-					{	vl_root_count (f->name) ; c11_case (f, ch, mode, meta) ; }
+					{	vl_root_count (f->name) ; c11_case (f, ch, mode, meta, 0) ; }
+					if (mode <= 2 && fmt_block (f, ch, fmt_default_rate (f)) > 1 && vl_case ("C11 fmt=%s ch=%d mode=%s meta=%d seq=block-aligned", f->name, ch, mode == 1 ? "update-now" : "auto", meta))
+					{	vl_root_count (f->name) ; c11_case (f, ch, mode, meta, 1) ; }
 					}
 			}
 		}
